@@ -31,6 +31,7 @@ BOUNDS = {"quick": {"corpus": "K20"}, "thorough": {"corpus": "K20"}}
 K20 = [
     Skeleton("a01_scopes", {"main.py": "{0} = 1\ndef fun({1}):\n    {2} = {1} + {0}\n    return {2}\nclass kls:\n    {3} = 2\n    {5} = {3} + {0}\n    def meth(self, {4}):\n        return {4} + {0}\nprint(fun({0}))\n"}, lens={2: 2, 3: 2}),
     Skeleton("a02_imports_nested", {"main.py": "import os as {0}\nfrom os import sep as {1}\ndef outer({2}):\n    def inner({3}):\n        return {2} + {3}\n    return inner(1) + len({1})\nprint(outer(1), {0}.sep)\n"}, lens={1: 2, 2: 2}),
+    Skeleton("a05_class_attr_vs_global_in_nested_def", {"main.py": "{0} = 1\nclass kls:\n    {1} = 2\n    def meth(self):\n        def gg():\n            return {2}\n        return gg()\nprint(kls().meth(), {3})\n"}),
     Skeleton("a03_attrs_and_partial", {"main.py": "class kls:\n    def __init__(self):\n        self.{0} = 1\n    def get(self):\n        return self.{0}\n{1} = kls()\nprint({1}.get(), {1}.{0})\n"}, lens={0: 2}),
 ]
 
@@ -52,6 +53,8 @@ def instances(tier):
                 L = sk.lens.get(int(mm.group(1)), 1)
                 start = mm.start() + shift
                 offs.update(range(start + 1, start + L + 1))
+                if L == 1:
+                    offs.add(start)  # ON a one-letter identifier (go-to-definition is judged only there)
                 if dummy[start + L: start + L + 1] == " ":
                     offs.add(start + L + 1)  # after the name and one blank: nothing is being typed there
                 shift += L - len(mm.group(0))
